@@ -495,6 +495,94 @@ func c05Extras(c *Check) {
 		}
 		c.Result(ok, "C05.E", "acceptReady marks the handed-out state as in progress", fnName(acceptReady), p.Pos(acceptReady.Pos()), "raftLog.acceptUnstable() on every path", "")
 	}
+	storageAppendCarries(c)
+}
+
+// storageAppendCarries — C05.E (async storage writes): MsgStorageAppend carries everything the
+// Ready asks to persist: the entries always, the hard state whenever the Ready has one, the
+// snapshot whenever the Ready has one. Its Responses release the promises, so a field that is
+// not carried is acknowledged without ever being written.
+func storageAppendCarries(c *Check) {
+	p := c.P
+	nsam := p.Func("raft", "newStorageAppendMsg")
+	msgT := p.Type("raftpb", "Message")
+	rdEntries := p.Field("raft", "Ready", "Entries")
+	rdSnap := p.Field("raft", "Ready", "Snapshot")
+	rdHS := p.Field("raft", "Ready", "HardState")
+	isEmptySnap := p.Func("raft", "IsEmptySnap")
+	isEmptyHS := p.Func("raft", "IsEmptyHardState")
+	if nsam == nil || msgT == nil || rdEntries == nil || rdSnap == nil || isEmptySnap == nil || isEmptyHS == nil || rdHS == nil {
+		return
+	}
+	fi := p.Info(nsam)
+	rd := fi.Sym(nsam.Params[1])
+	var msgAlloc ssa.Value
+	for _, lit := range p.Lits(msgT) {
+		if lit.Fn != nsam {
+			continue
+		}
+		msgAlloc = lit.Alloc
+		es := lit.FieldSym(p, "Entries")
+		ok := es != nil && es.Key() == FieldOf(rd, rdEntries).Key()
+		c.Result(ok, "C05.E", "MsgStorageAppend.Entries", fnName(nsam), p.site(lit.Alloc), "Entries <- rd.Entries, unconditionally", fmt.Sprint(es))
+	}
+	if msgAlloc == nil {
+		c.Bad("C05.E", "MsgStorageAppend literal", fnName(nsam), p.Pos(nsam.Pos()), "newStorageAppendMsg builds the message", "no literal found")
+		return
+	}
+	type carried struct {
+		field  string
+		guard  *BF
+		gtext  string
+		source func(v *Sym) bool
+	}
+	hsGuard := bfNot(bfSym(CallSym(isEmptyHS, FieldOf(rd, rdHS))))
+	fromRd := func(getter string) func(v *Sym) bool {
+		return func(v *Sym) bool {
+			k := v.Key()
+			return strings.Contains(k, getter) && strings.Contains(k, rd.Key())
+		}
+	}
+	want := []carried{
+		{"Snapshot", bfNot(bfSym(CallSym(isEmptySnap, FieldOf(rd, rdSnap)))), "!IsEmptySnap(rd.Snapshot)", func(v *Sym) bool { return v.Key() == FieldOf(rd, rdSnap).Key() }},
+		{"Term", hsGuard, "!IsEmptyHardState(rd.HardState)", fromRd("GetTerm")},
+		{"Vote", hsGuard, "!IsEmptyHardState(rd.HardState)", fromRd("GetVote")},
+		{"Commit", hsGuard, "!IsEmptyHardState(rd.HardState)", fromRd("GetCommit")},
+	}
+	for _, w := range want {
+		found := false
+		for _, in := range p.liveInstrsOf(nsam) {
+			st, ok := in.(*ssa.Store)
+			if !ok {
+				continue
+			}
+			fa, ok := st.Addr.(*ssa.FieldAddr)
+			if !ok || fa.X != msgAlloc || derefStruct(fa.X.Type()).Field(fa.Field).Name() != w.field {
+				continue
+			}
+			var v *Sym
+			if w.field == "Snapshot" {
+				v = fi.Sym(st.Val)
+			} else {
+				v = fi.PointeeOf(st.Val)
+			}
+			if v.K == KNil {
+				continue
+			}
+			found = true
+			okV := w.source(v)
+			pf, okP := fi.PathFormula(st, -1)
+			okG := false
+			why := "path formula too large"
+			if okP {
+				okG, why = bfImplies(w.guard, pf)
+			}
+			c.Result(okV && okG, "C05.E", "MsgStorageAppend."+w.field, fnName(nsam), p.site(st), w.field+" <- the Ready's value whenever "+w.gtext, fmt.Sprintf("value %s; %s", sanitizeKey(v.Key()), shorten(why, 400)))
+		}
+		if !found {
+			c.Bad("C05.E", "MsgStorageAppend."+w.field, fnName(nsam), p.Pos(nsam.Pos()), w.field+" <- the Ready's value whenever "+w.gtext, "never set")
+		}
+	}
 }
 
 // c05Restart: newRaft takes term/vote/commit only from Storage.InitialState via loadState.
@@ -726,4 +814,11 @@ func nodeLoop(c *Check) {
 		}
 		c.Result(ok, "C05.N", "Node computes a new Ready only when none is outstanding", fnName(run), p.site(ci), "advancec == nil (the previous Ready was advanced) before readyWithoutAccept()", strings.Join(f.Describe(), "; "))
 	}
+}
+
+func shorten(s string, n int) string {
+	if len(s) <= n {
+		return s
+	}
+	return s[:n] + " …"
 }
